@@ -56,11 +56,25 @@ func Parse(input string) ParseResult {
 
 	stream := antlr.NewCommonTokenStream(lexer, antlr.TokenDefaultChannel)
 
-	parser := parser.NewNumscriptParser(stream)
-	parser.RemoveErrorListeners()
-	parser.AddErrorListener(listener)
+	numscriptParser := parser.NewNumscriptParser(stream)
+	numscriptParser.RemoveErrorListeners()
+	numscriptParser.AddErrorListener(listener)
 
-	parsed := parseProgram(parser.Program())
+	parsed := parseProgram(numscriptParser.Program())
+
+	// number literals are stored as int: report the ones that do not fit
+	// (instead of crashing on them)
+	for _, tk := range stream.GetAllTokens() {
+		if tk.GetTokenType() != parser.NumscriptLexerNUMBER {
+			continue
+		}
+		if _, err := strconv.Atoi(tk.GetText()); err != nil {
+			listener.Errors = append(listener.Errors, ParserError{
+				Range: tokenToRange(tk),
+				Msg:   "number literal out of range: " + tk.GetText(),
+			})
+		}
+	}
 
 	return ParseResult{
 		Source: input,
@@ -584,10 +598,8 @@ func parseSendStatement(statementCtx *parser.SendStatementContext) *SendStatemen
 func parseNumberLiteral(numNode antlr.TerminalNode) *NumberLiteral {
 	amtStr := numNode.GetText()
 
-	amt, err := strconv.Atoi(amtStr)
-	if err != nil {
-		panic("Invalid number: " + amtStr)
-	}
+	// a literal that does not fit is reported by Parse; its value is left at zero
+	amt, _ := strconv.Atoi(amtStr)
 
 	return &NumberLiteral{
 		Range:  tokenToRange(numNode.GetSymbol()),
